@@ -8,6 +8,7 @@ import SnapraidVerif.Codec.Save
 import SnapraidVerif.Array.ScrubPlan
 import SnapraidVerif.Parity.Split
 import SnapraidVerif.Filter.Rules
+import SnapraidVerif.Esc.Esc
 
 open SnapraidVerif SnapraidVerif.GF SnapraidVerif.Raid SnapraidVerif.Codec
 
@@ -165,6 +166,14 @@ def handle (toks : List String) : String :=
       | some t => "ok " ++ String.intercalate " " (t.map fun x => s!"{x.size}/{x.fsz}")
       | none => "fail"
     | _, _, _, _, _ => "bad-op"
+  | ["esc_tag", h] =>
+    (match (if h = "-" then some [] else parseHex8 h) with
+     | some b => let r := Esc.escTag b; if r.isEmpty then "-" else hex8 r
+     | none => "bad-op")
+  | ["esc_shell", h] =>
+    (match (if h = "-" then some [] else parseHex8 h) with
+     | some b => let r := Esc.escShell b; if r.isEmpty then "-" else hex8 r
+     | none => "bad-op")
   | ["fnm", fl, pat, str] =>
     let dec (h : String) : Option (List UInt8) := if h = "-" then some [] else parseHex8 h
     match fl.toNat?, dec pat, dec str with
